@@ -30,7 +30,7 @@ from .. import common, identlib
 from ..gen import cfggen
 
 PROP = "C20"
-MODULES = ["XpmVerif.Properties.C20"]
+MODULES = ["XpmVerif.Properties.C20", "XpmVerif.Properties.C20Load", "XpmVerif.Properties.FixSrc"]
 
 # common.load_findings reads the assembled known_findings.json (written by the lead's tools/mkmanifest.py);
 # until it is assembled, read this property's own fragment so that the check is self-contained.
@@ -53,7 +53,14 @@ def known_keys():
 
 
 def prove(ctx):
-    common.check_proofs(ctx, MODULES)
+    # Generated/FixSrc.lean: the decision structure of fix_deprecated / alias_job_files and the identifier swap of
+    # ObjectType.deprecate, regenerated from the tree under test; Properties/FixSrc.lean holds the source obligations
+    from ..translate import fixsrc
+    msgs = fixsrc.generate(common.REPO, common.LEAN)
+    for ok, msg in msgs:
+        ctx.notes.append(f"translator(fixsrc): {msg}")
+        ctx.count("translator_fixsrc", "translated" if msg.endswith("translated") else "fallback (untranslated shape)" if ok else "failed")
+    common.check_proofs(ctx, MODULES, translate_msgs=msgs)
 
 
 _WIRING = None
@@ -88,11 +95,18 @@ def hx(s):
     return s.encode("utf-8").hex()
 
 
-def gen_a_library(rng, tag):
-    lib = cfggen.gen_library(rng, tag, with_deprecated=True)
+def gen_a_library(rng, tag, cfg_defaults=True):
+    lib = cfggen.gen_library(rng, tag, with_deprecated=True, cfg_defaults=cfg_defaults and common.CFG_DEFAULTS)
     pkg = lib["pkg"]
     classes = lib["classes"]
     base = [c for c in classes if c["name"].startswith("C")]
+    # every class used in a configuration-valued declared default (`x: Param[C] = C(a=1)`) has a deprecated variant: a
+    # deprecated instance given where the default is an instance of the replacement must still be recognised as the default
+    for cname in sorted({l["c"]["cls"] for c in base for a in c["args"] if "default" in a for l in default_literals(a["default"])}):
+        if not any(c["deprecated"] and c["parent"] == cname for c in classes):
+            c = next(c for c in classes if c["name"] == cname)
+            classes.append({"name": f"Old{cname}", "xpmid": f"{pkg}.old{cname.lower()}", "parent": cname, "kind": c["kind"],
+                            "deprecated": True, "args": []})
     if not any(c["deprecated"] for c in classes):  # at least one deprecated class per library
         c = rng.choice(base)
         classes.append({"name": f"Old{c['name']}", "xpmid": f"{pkg}.old{c['name'].lower()}", "parent": c["name"], "kind": c["kind"],
@@ -107,6 +121,46 @@ def gen_a_library(rng, tag):
             classes.append({"name": "Sub" + c["name"], "xpmid": f"{pkg}.sub{c['name'].lower()}", "parent": c["name"], "kind": c["kind"],
                             "deprecated": False, "args": [], "twin_of": c["name"]})
     return lib
+
+
+def default_literals(v):
+    """the top-level configuration literals of a declared default (`C(a=1)`, items of `[C(a=1)]`, values of `{"k": C()}`)"""
+    if isinstance(v, dict):
+        if "c" in v:
+            return [v]
+        return [x for y in v.get("l", []) for x in default_literals(y)] + [x for _, y in v.get("d", []) for x in default_literals(y)]
+    return []
+
+
+def gen_default_spellings(rng, lib, g):
+    """three spellings of one graph: a parameter with a configuration-valued declared default is (U) left unset, (B) given a
+    configuration equal to the default built explicitly with the replacement class, (A) the same with a *deprecated* class.
+    Returns (graph A, graph B, graph U, re-classed nodes, number of common nodes, where) or None"""
+    cands = []
+    for k, nd in enumerate(g["nodes"]):
+        for a in cfggen.all_args(lib, nd["cls"]):
+            if a["decl"] == "param" and "default" in a and cfggen.has_literal(a["default"]) \
+                    and any(old_variants(lib, l["c"]["cls"]) for l in default_literals(a["default"])):
+                cands.append((k, a))
+    if not cands:
+        return None
+    k, a = rng.choice(cands)
+    n0 = len(g["nodes"])
+    gu, gb = copy.deepcopy(g), copy.deepcopy(g)
+    gu["nodes"][k]["values"] = [kv for kv in gu["nodes"][k]["values"] if kv[0] != a["name"]]
+    gb["nodes"][k]["values"] = [kv for kv in gb["nodes"][k]["values"] if kv[0] != a["name"]]
+    v = cfggen.materialize(gb["nodes"], a["default"])
+    gb["nodes"][k]["values"].append([a["name"], v])
+    tops = [x["r"] for x in ([v] + v.get("l", []) + [y for _, y in v.get("d", [])]) if isinstance(x, dict) and "r" in x]
+    ga = copy.deepcopy(gb)
+    sel = []
+    for t in tops:
+        variants = old_variants(lib, gb["nodes"][t]["cls"])
+        if variants and (not sel or rng.random() < 0.7):
+            ga["nodes"][t]["cls"] = rng.choice(variants)
+            sel.append(t)
+    where = "default-value" + ("" if "r" in v else "-in-list" if "l" in v else "-in-dict") + ("" if k == 0 else "-nested")
+    return ga, gb, gu, sorted(sel), n0, where
 
 
 def old_variants(lib, cname):
@@ -177,6 +231,15 @@ def gen_a(ctx, rng, nlibs, per, tag):
             steps = id_steps(ga, "A") + id_steps(g, "B") + (id_steps(gc, "C") if control is not None else [])
             cases.append({"lib": li, "steps": steps, "graph_old": ga, "graph_new": g, "sel": sorted(k for k, _ in chosen),
                           "control": control, "n": len(g["nodes"])})
+        for _ in range(max(2, per // 4)):
+            g = cfggen.gen_graph(rng, lib, max_nodes=rng.choice([3, 6, 10]))
+            sp = gen_default_spellings(rng, lib, g)
+            if sp is None:
+                continue
+            ga, gb, gu, sel, n0, where = sp
+            steps = id_steps(ga, "A") + id_steps(gb, "B") + id_steps(gu, "U")
+            cases.append({"lib": li, "steps": steps, "graph_old": ga, "graph_new": gb, "graph_unset": gu, "sel": sel, "control": None,
+                          "n": len(gb["nodes"]), "n0": n0, "where": where})
     return libs, cases
 
 
@@ -186,6 +249,13 @@ def split_ids(rec, n, with_control):
     b = (outs[2 * n:3 * n], outs[3 * n:4 * n])
     c = (outs[4 * n:5 * n], outs[5 * n:6 * n]) if with_control else None
     return a, b, c
+
+
+def unset_ids(rec, case):
+    """identifiers of the spelling that leaves the defaulted parameter unset (first n0 nodes are common to the three spellings)"""
+    n, n0 = case["n"], case["n0"]
+    outs = [o.get("id") for l, o in zip(rec["lines"], rec["impl"]) if l["op"] != "graph"]
+    return outs[4 * n:4 * n + n0], outs[4 * n + n0:4 * n + 2 * n0]
 
 
 def monitor_a(ctx, case, rec):
@@ -202,6 +272,14 @@ def monitor_a(ctx, case, rec):
     if c is not None:
         k = case["control"]
         ctx.count("control_subclass_changes_identifier", c[1][k] != b[1][k])
+    if "graph_unset" in case:
+        u = unset_ids(rec, case)
+        for k in range(case["n0"]):
+            if u[0][k] != b[0][k] or u[1][k] != b[1][k]:
+                # the replacement spelling itself is not recognised as the default: C02's territory, not a deprecation matter
+                ctx.count("a_default_spelling", "replacement instance differs from unset (not C20)")
+                return True
+        ctx.count("a_default_spelling", case["where"])
     return True
 
 
@@ -216,10 +294,13 @@ def model_lines_a(lib, case, rec):
     graphs = [l for l in rec["lines"] if l["op"] == "graph"]
     specs = [case["graph_old"], case["graph_new"]]
     lines = []
+    by_id = {hx(c["xpmid"]): i for i, c in enumerate(lib["classes"]) if not c["deprecated"]}
     for gl, spec in zip(graphs[:2], specs):
         nodes = []
-        for nd, sn in zip(gl["nodes"], spec["nodes"]):
-            nodes.append({"cls": names.index(sn["cls"]), "args": nd["args"], "task": nd["task"], "meta": nd["meta"],
+        for k, nd in enumerate(gl["nodes"]):
+            # nodes beyond the spec: the class-level default objects and their clones (cfgbuild.closure): instances of plain classes
+            cls = names.index(spec["nodes"][k]["cls"]) if k < len(spec["nodes"]) else by_id[nd["typeId"]]
+            nodes.append({"cls": cls, "args": nd["args"], "task": nd["task"], "meta": nd["meta"],
                           "pre": nd["pre"], "init": nd["init"]})
         lines.append({"op": "ids", "classes": table, "nodes": nodes, "sel": []})
     # the model's own re-classing (the function the theorem is about), applied until the replacements are reached
@@ -270,9 +351,9 @@ def correspond_a(ctx):
             for nd, sn in zip(gl["nodes"], spec["nodes"]):
                 if mo["eff"][names.index(sn["cls"])] != nd["typeId"]:
                     what = f"type identifier of class {sn['cls']}: model {bytes.fromhex(mo['eff'][names.index(sn['cls'])])!r} real {bytes.fromhex(nd['typeId'])!r}"
-        if what is None and (mo_a["full"] != a[0] or mo_a["raw"] != a[1]):
+        if what is None and (mo_a["full"][:n] != a[0] or mo_a["raw"][:n] != a[1]):
             what = "identifiers of the graph with deprecated classes differ between model and implementation"
-        if what is None and (mo_b["full"] != b[0] or mo_b["raw"] != b[1]):
+        if what is None and (mo_b["full"][:n] != b[0] or mo_b["raw"][:n] != b[1]):
             what = "identifiers of the graph with replacements differ between model and implementation"
         if what is None and (mo_r["full"] != mo_a["full"] or mo_r["raw"] != mo_a["raw"]):
             what = "model: re-classing changed an identifier (contradicts sig_deprecated)"
@@ -288,7 +369,7 @@ def gen_c(ctx, rng, nlibs, per, tag):
     @deprecate) + graphs using the Old classes, saved under v1 and loaded under v2 in fresh processes"""
     libs, cases = [], []
     for li in range(nlibs):
-        lib = gen_a_library(rng, f"{tag}_{ctx.seed}_{li}")
+        lib = gen_a_library(rng, f"{tag}_{ctx.seed}_{li}", cfg_defaults=False)
         lib["classes"].append({"name": "Wrap", "xpmid": f"{lib['pkg']}.wrap", "parent": None, "kind": "task", "deprecated": False, "twin_of": "-",
                                "args": [{"name": "item", "decl": "param", "ty": {"cfg": "Config"}, "optional": True},
                                         {"name": "items", "decl": "param", "ty": {"list": {"cfg": "Config"}}, "optional": False},
@@ -394,9 +475,12 @@ def evaluate_c(ctx, libs, cases, srecs, lrecs, with_model=True):
     lines = []
     for case, lr in good:
         names, table = class_table(libs[case["lib"]])
+        by_id = {hx(c["xpmid"]): i for i, c in enumerate(libs[case["lib"]]["classes"]) if not c["deprecated"]}
+        sn = case["graph"]["nodes"]
         lines.append({"op": "ids", "classes": table, "sel": [],
-                      "nodes": [{"cls": names.index(sn["cls"]), "args": nd["args"], "task": nd["task"], "meta": nd["meta"], "pre": nd["pre"], "init": nd["init"]}
-                                for nd, sn in zip(lr["nodes"], case["graph"]["nodes"])]})
+                      "nodes": [{"cls": names.index(sn[k]["cls"]) if k < len(sn) else by_id[nd["typeId"]],
+                                 "args": nd["args"], "task": nd["task"], "meta": nd["meta"], "pre": nd["pre"], "init": nd["init"]}
+                                for k, nd in enumerate(lr["nodes"])]})
     try:
         outs = common.run_driver("C20", lines)
     except Exception as e:
@@ -406,7 +490,7 @@ def evaluate_c(ctx, libs, cases, srecs, lrecs, with_model=True):
         ctx.traces_validated += 1
         exp = lr["expected"]
         what = None
-        if mo["full"] != [e[0] for e in exp] or mo["raw"] != [e[1] for e in exp]:
+        if mo["full"][:len(exp)] != [e[0] for e in exp] or mo["raw"][:len(exp)] != [e[1] for e in exp]:
             what = "identifiers of the freshly built graph (version 2) differ between model and implementation"
         else:
             for v, rows in lr["variants"].items():
@@ -447,7 +531,12 @@ def gen_ws_lib(rng, tag):
         cl.append({"name": f"NewT{j}", "xpmid": f"{pkg}.newt{j}", "parent": None, "kind": "task", "deprecated": False,
                    "args": [{"name": "x", "decl": "param", "ty": "int", "optional": False},
                             {"name": "c", "decl": "param", "ty": {"cfg": "NewC0"}, "optional": True},
-                            {"name": "cs", "decl": "param", "ty": {"list": {"cfg": "NewC1"}}, "optional": False}]})
+                            {"name": "cs", "decl": "param", "ty": {"list": {"cfg": "NewC1"}}, "optional": False},
+                            # declared defaults that are configurations of the replacement classes: `d: Param[NewC0] = NewC0(a=1)`
+                            {"name": "d", "decl": "param", "ty": {"cfg": "NewC0"}, "optional": False,
+                             "default": {"c": {"cls": "NewC0", "kw": [["a", 1]]}}},
+                            {"name": "dl", "decl": "param", "ty": {"list": {"cfg": "NewC1"}}, "optional": False,
+                             "default": {"l": [{"c": {"cls": "NewC1", "kw": [["a", 1]]}}]}}]})
         renamed[j] = rng.random() < 0.35
         oid = f"{pkg}.oldt{j}" if renamed[j] else f"{pkg}.legacy.newt{j}"
         cl.append({"name": f"OldT{j}", "xpmid": oid, "parent": f"NewT{j}", "kind": "task", "deprecated": False, "args": []})
@@ -463,11 +552,18 @@ def gen_spec(rng):
         spec["c"] = {"cls": rng.choice(["NewC0", "OldC0", "OldC0", "Old2C0"]), "a": rng.choice([1, 1, 2])}
     for _ in range(rng.choice([0, 0, 1, 2])):
         spec["cs"].append({"cls": rng.choice(["NewC1", "OldC1", "Old2C1"]), "a": rng.choice([1, 2])})
+    # the value of a parameter whose declared default is NewC0(a=1) / [NewC1(a=1)]: unset, the replacement class, a deprecated class
+    r = rng.random()
+    if r < 0.35:
+        spec["dv"] = {"cls": rng.choice(["NewC0", "OldC0", "OldC0", "Old2C0"]), "a": rng.choice([1, 1, 1, 2])}
+    elif r < 0.5:
+        spec["dl"] = [{"cls": rng.choice(["NewC1", "OldC1", "OldC1", "Old2C1"]), "a": rng.choice([1, 1, 2])}]
     return spec
 
 
 def uses(spec, prefix):
-    return spec["cls"].startswith(prefix) or (spec["c"] and spec["c"]["cls"].startswith(prefix)) or any(s["cls"].startswith(prefix) for s in spec["cs"])
+    return spec["cls"].startswith(prefix) or (spec["c"] and spec["c"]["cls"].startswith(prefix)) or any(s["cls"].startswith(prefix) for s in spec["cs"]) \
+        or bool(spec.get("dv") and spec["dv"]["cls"].startswith(prefix)) or any(s["cls"].startswith(prefix) for s in spec.get("dl") or [])
 
 
 def gen_fix_op(rng, allow_interrupt=True, allow_rel=True):
@@ -523,7 +619,8 @@ def gen_ws_case(rng, tag, init_rate=0.12):
 
     fix_block()
     if rng.random() < 0.5:
-        ops.append({"op": "resubmit", "jobs": list(range(n))})
+        # resubmission, spelled as submitted or with the replacement classes (defaulted parameters left unset)
+        ops.append({"op": "resubmit", "jobs": list(range(n)), "canonical": rng.random() < 0.5})
         ndata = n + 2
     if rng.random() < 0.45:  # a second generation: more jobs, more deprecations, repairs on an already repaired tree
         if pending:
@@ -534,7 +631,7 @@ def gen_ws_case(rng, tag, init_rate=0.12):
             ops.append({"op": "deprecate", "classes": gen2 + gen2b})
         fix_block()
         if rng.random() < 0.6:
-            ops.append({"op": "resubmit", "jobs": list(range(n))})
+            ops.append({"op": "resubmit", "jobs": list(range(n)), "canonical": rng.random() < 0.5})
     return {"lib": lib, "jobs": specs, "ops": ops}
 
 
@@ -687,6 +784,17 @@ class CaseEval:
             else:
                 self.fail("list-changes-tree", f"listing changed the tree: removed {gone}", oi)
             ok = ok and not (op["cleanup"] and op["via"] == "cli")
+        # M0: first sentence of C20 on the jobs of the workspace: the spelling a job was submitted with (deprecated classes) and its
+        # replacement spelling (replacement classes, a parameter equal to its declared default left unset) have one identifier
+        for d, key_spelled in (r.get("as_spelled") or {}).items():
+            if int(d) in expected and tuple(key_spelled) != expected[int(d)]:
+                spec = self.case["jobs"][spec_of[int(d)]]
+                where = "default-value" if (spec.get("dv") or spec.get("dl")) else "argument"
+                self.fail(f"deprecated-class-changes-identifier:job:{where}",
+                          f"job {spec} has the identifier {key_spelled[0]}/{key_spelled[1][:12]}… as submitted but {expected[int(d)][0]}/{expected[int(d)][1][:12]}… "
+                          f"when spelled with the replacement classes (a parameter equal to its declared default left unset)", oi)
+                ok = False
+                break
         # M2 / M6: after a complete repair every directory is reachable under the identifier a resubmission computes
         if complete and op["fix"]:
             by_key = {}
@@ -880,7 +988,7 @@ def correspond_bc(ctx):
     the evaluation is sequential"""
     from concurrent.futures import ThreadPoolExecutor
 
-    rng = ctx.rng
+    rng = random.Random(f"c20-bc-{ctx.seed}")  # own stream: parts (b)/(c) do not depend on how much part (a) draws
     clibs, ccases = gen_c(ctx, rng, ctx.scale(4, 24), ctx.scale(30, 100), "c20c")
     n = ctx.scale(260, 4000)
     cases = [gen_ws_case(rng, f"{ctx.seed}_{i}") for i in range(n)]
@@ -922,6 +1030,8 @@ def correspond(ctx):
 
 
 def run_witness(ctx, finding):
+    if common.run_script_witness(ctx, finding):
+        return
     w = finding["witness"]
     case = w["case"]
     res = run_ws_cases(ctx, [case], shards=1)
